@@ -107,6 +107,52 @@ class PoolDouble:
         pass
 
 
+class FutureDouble:
+    def __init__(self, value):
+        self._v = value
+
+    def result(self, timeout=None):
+        return self._v
+
+    def done(self):
+        return True
+
+
+class ExecutorDouble(PoolDouble):
+    """pool-like object that also offers the concurrent.futures interface (submit + as_completed): tasks complete in an
+    arbitrary symbolic order; map() keeps the documented input order."""
+
+    def submit(self, f, *a, **k):
+        fut = FutureDouble(f(*a, **k))
+        self.submitted = getattr(self, "submitted", []) + [fut]
+        return fut
+
+    def shutdown(self, wait=True):
+        pass
+
+    def as_completed(self, futures, timeout=None):
+        futures = list(futures)
+        order = self._order(len(futures))
+        return iter([futures[i] for i in order])
+
+
+class futures_double:
+    """routes concurrent.futures.as_completed / wait to the executor double for the duration of a call."""
+
+    def __init__(self, ex):
+        self.ex = ex
+
+    def __enter__(self):
+        import concurrent.futures as cf
+        self.cf = cf
+        self.saved = (cf.as_completed, cf.wait)
+        cf.as_completed = lambda fs, timeout=None: (self.ex.as_completed(fs) if self.ex is not None else self.saved[0](fs, timeout))
+        return self
+
+    def __exit__(self, *a):
+        self.cf.as_completed, self.cf.wait = self.saved
+
+
 def fake_multiprocess(ctx, record):
     mod = types.ModuleType("multiprocess")
 
@@ -160,7 +206,7 @@ def batch_likelihood(cb: Callbacks, counter: dict):
     return f
 
 
-STRATS = ["vectorized", "serial", "pool-int", "pool-object"]
+STRATS = ["vectorized", "serial", "pool-int", "pool-object", "pool-executor"]
 
 
 def build_sampler(ctx, cb, strat, blobs, counter, d=1, n=2, mp_record=None, sample="rwm"):
@@ -176,6 +222,8 @@ def build_sampler(ctx, cb, strat, blobs, counter, d=1, n=2, mp_record=None, samp
         return Sampler(cb.prior_transform, f, blobs_dtype=bd, pool=size, **kw)
     if strat == "pool-object":
         return Sampler(cb.prior_transform, f, blobs_dtype=bd, pool=PoolDouble(ctx), **kw)
+    if strat == "pool-executor":
+        return Sampler(cb.prior_transform, f, blobs_dtype=bd, pool=ExecutorDouble(ctx, tag="ex"), **kw)
     raise ValueError(strat)
 
 
@@ -189,7 +237,8 @@ def make_loglike(strat, blobs, npts, d=1):
         saved = sys.modules.get("multiprocess")
         sys.modules["multiprocess"] = fake_multiprocess(ctx, rec)
         try:
-            with patched(core_mod, np=core_proxy(), float=lambda v: v), numpy_import_as(core_proxy()):
+            ex = smp._core.config.pool if isinstance(smp._core.config.pool, ExecutorDouble) else None
+            with patched(core_mod, np=core_proxy(), float=lambda v: v), numpy_import_as(core_proxy()), futures_double(ex):
                 try:
                     logl, bl = smp._core._log_like(sarr(x))
                 except AttributeError as e:
@@ -241,15 +290,42 @@ def make_loglike(strat, blobs, npts, d=1):
         def f(xr):
             cnt["n"] += 1
             return (-float(np.sum(xr ** 2)), float(np.sum(xr) * 7)) if blobs else -float(np.sum(xr ** 2))
+        class RevExecutor(RevPool):
+            """concurrent.futures-style pool whose tasks finish in reverse submission order"""
+            def submit(self, fn, *a, **k):
+                import concurrent.futures as cf
+                fut = cf.Future()
+                self.pending = getattr(self, "pending", []) + [(fut, fn, a, k)]
+                return fut
+
+            def shutdown(self, wait=True):
+                pass
         kw = dict(n_dim=d, n_particles=2, clustering=False)
         x = np.arange(1, npts * d + 1, dtype=float).reshape(npts, d)
         if strat == "vectorized":
             smp = Sampler(lambda u: u, lambda xx: (cnt.__setitem__("n", cnt["n"] + len(xx)), -np.sum(xx ** 2, axis=1))[1], vectorize=True, **kw)
         elif strat == "serial":
             smp = Sampler(lambda u: u, f, blobs_dtype="float64" if blobs else None, **kw)
+        elif strat == "pool-executor":
+            import concurrent.futures as cf
+            ex = RevExecutor()
+            smp = Sampler(lambda u: u, f, blobs_dtype="float64" if blobs else None, pool=ex, **kw)
+            real_ac = cf.as_completed
+
+            def ac(fs, timeout=None):
+                fs = list(fs)
+                for fut, fn, a, k in reversed(getattr(ex, "pending", [])):
+                    fut.set_result(fn(*a, **k))
+                    yield fut
+            cf.as_completed = ac
+            try:
+                logl, bl = smp._core._log_like(x)
+            finally:
+                cf.as_completed = real_ac
         else:
             smp = Sampler(lambda u: u, f, blobs_dtype="float64" if blobs else None, pool=RevPool(), **kw)
-        logl, bl = smp._core._log_like(x)
+        if strat != "pool-executor":
+            logl, bl = smp._core._log_like(x)
         ref = -np.sum(x ** 2, axis=1)
         bad = (len(logl) != npts) or (not np.allclose(logl, ref)) or cnt["n"] != npts or \
               (blobs and strat != "vectorized" and (bl is None or not np.allclose(np.asarray(bl, dtype=float).reshape(-1), 7 * x.sum(axis=1))))
